@@ -579,8 +579,8 @@ Proof.
     + intros p q _ _ E. unfold den. cbn. cbn in E. rewrite E. reflexivity.
     + intros c' Hc' Hr. destruct c'; try discriminate Hc'; cbn [pref_rank]; try lia; exfalso.
       * specialize (Hr (0, 0, 0) (1, 0, 0) ltac:(cbn; lia) ltac:(cbn; lia) eq_refl). vm_compute in Hr. discriminate Hr.
-      * specialize (Hr (1, 0, 0) (1, 1, 0) ltac:(cbn; lia) ltac:(cbn; lia) eq_refl). vm_compute in Hr. discriminate Hr.
       * specialize (Hr (0, 0, 0) (1, 0, 0) ltac:(cbn; lia) ltac:(cbn; lia) eq_refl). vm_compute in Hr. discriminate Hr.
+      * specialize (Hr (1, 0, 0) (1, 1, 0) ltac:(cbn; lia) ltac:(cbn; lia) eq_refl). vm_compute in Hr. discriminate Hr.
   - exists (1, 0, 0). split; [cbn; lia|]. vm_compute. discriminate.
 Qed.
 
